@@ -212,45 +212,32 @@ func (w *World) userControl(ui int, op *UserOp) {
 	case "loop-misuse":
 		// the EventLoop of a connection the application knows: calls without a
 		// target must be refused with their own errors while the engine runs and
-		// with the in-shutdown error afterwards; Schedule is not supported at all
+		// with the in-shutdown error afterwards; Schedule is not supported at all.
+		// One call per judgement: the engine may change state between two calls.
 		if w.loopOf == nil {
 			return
 		}
+		vsched.Acquire(&w.loopOfConn.pub) // the application got the EventLoop inside that connection's OnOpen
 		el := w.loopOf
 		w.probes["eventloop-api-without-target"]++
-		type ans struct{ reg, enr, exe, sch error }
-		w.ctl("EventLoop API without a target", func(gnet.Engine) (any, error) {
-			var a ans
-			_, a.reg = el.Register(context.Background(), nil)
-			_, a.enr = el.Enroll(context.Background(), nil)
-			a.exe = el.Execute(context.Background(), nil)
-			a.sch = el.Schedule(context.Background(), nil, time.Second)
-			return a, nil
-		}, func(st string, res any, _ error) string {
-			a := res.(ans)
-			if !errors.Is(a.sch, errorx.ErrUnsupportedOp) {
-				return fmt.Sprintf("Schedule returned %v, want the unsupported-operation error", a.sch)
-			}
-			switch st {
-			case stStopped:
-				for what, e := range map[string]error{"Register": a.reg, "Enroll": a.enr, "Execute": a.exe} {
-					if m := wantErr(e, errorx.ErrEngineInShutdown); m != "" {
-						return what + ": " + m
+		one := func(name string, call func() error, running error) {
+			w.ctl("EventLoop."+name+" without a target", func(gnet.Engine) (any, error) { return nil, call() },
+				func(st string, _ any, err error) string {
+					switch st {
+					case stStopped:
+						return wantErr(err, errorx.ErrEngineInShutdown)
+					case stRunning:
+						return wantErr(err, running)
 					}
-				}
-			case stRunning:
-				if m := wantErr(a.reg, errorx.ErrInvalidNetworkAddress); m != "" {
-					return "Register(nil address): " + m
-				}
-				if m := wantErr(a.enr, errorx.ErrInvalidNetConn); m != "" {
-					return "Enroll(nil connection): " + m
-				}
-				if m := wantErr(a.exe, errorx.ErrNilRunnable); m != "" {
-					return "Execute(nil): " + m
-				}
-			}
-			return ""
-		})
+					return ""
+				})
+		}
+		one("Register", func() error { _, e := el.Register(context.Background(), nil); return e }, errorx.ErrInvalidNetworkAddress)
+		one("Enroll", func() error { _, e := el.Enroll(context.Background(), nil); return e }, errorx.ErrInvalidNetConn)
+		one("Execute", func() error { return el.Execute(context.Background(), nil) }, errorx.ErrNilRunnable)
+		if e := el.Schedule(context.Background(), nil, time.Second); !errors.Is(e, errorx.ErrUnsupportedOp) {
+			w.violate("C19", "answer/EventLoop.Schedule", "Schedule returned %v, want the unsupported-operation error", e)
+		}
 	case "stopctx":
 		w.userStopCtx(ui, op.N)
 	}
